@@ -30,7 +30,7 @@ type Rec struct {
 	App     int  `json:"app"`            // index into apps
 	Host    int  `json:"host"`           // index into hosts
 	Size    int  `json:"size"`           // payload bytes
-	Kind    int  `json:"kind,omitempty"` // 0 normal, 1 filtered by the drop rule, 2 malformed but record-shaped (rejected by the parser)
+	Kind    int  `json:"kind,omitempty"` // 0 normal, 1 filtered by the pipeline's drop rule, 2 malformed but record-shaped (rejected by the parser), 3 filtered by the drop rule among the input extractions
 	Pause   int  `json:"pause,omitempty"` // ms to wait before sending this record
 }
 
@@ -174,7 +174,7 @@ func configText(sc Scenario, root string, servers []string, variant string) stri
 	}
 	var b strings.Builder
 	b.WriteString("anchors: []\nschema:\n  fields: " + fields + "\n  maxFields: 14\n")
-	b.WriteString("inputs:\n  - type: syslog\n    address: 127.0.0.1:0\n    levelMapping: [" + strings.Join(levels, ", ") + "]\n    extractions:\n      - type: extractHead\n        key: log\n        pattern: '\\[*\\] '\n        maxLen: 20\n        destKey: kind\n")
+	b.WriteString("inputs:\n  - type: syslog\n    address: 127.0.0.1:0\n    levelMapping: [" + strings.Join(levels, ", ") + "]\n    extractions:\n      - type: extractHead\n        key: log\n        pattern: '\\[*\\] '\n        maxLen: 20\n        destKey: kind\n      - type: drop\n        match:\n          kind: xdrop\n        percentage: 100\n        metricLabel: xfiltered\n")
 	b.WriteString("orchestration:\n  type: byKeySet\n  keys: " + keys + "\n  tag: e2e.$app\n")
 	metricKeys := "[source]"
 	if variant == "incompatible" {
@@ -211,6 +211,8 @@ func line(gen, conn, seq int, r Rec, key string) ([]byte, *Expected) {
 	kind := ""
 	if r.Kind == 1 {
 		kind = "[dropme] "
+	} else if r.Kind == 3 {
+		kind = "[xdrop] " // dropped by the drop rule among the input extractions, before the pipeline
 	} else if seq%3 == 0 {
 		kind = "[cls] "
 	}
